@@ -112,12 +112,3 @@ var properties = []Property{
 		NotCov:  "what the kernel does with synced data, directory-entry durability, recovery of a torn tail (C09), enumeration of crash images."},
 }
 
-func runThorough(id, repo string, noEvid, verbose bool) int {
-	code := 0
-	for _, pr := range selectProps(id) {
-		if c := runProperty(pr, repo, "thorough", "", "", "vta", noEvid, verbose, nil); c > code {
-			code = c
-		}
-	}
-	return code
-}
